@@ -40,6 +40,7 @@ type Op struct {
 	NilOption bool    `json:"nil_option,omitempty"` // a nil Option among the options
 	EmptyTarget bool  `json:"empty_target,omitempty"` // WithTargetDir("") is passed: documented to mean the current directory
 	Decoys   bool     `json:"decoys,omitempty"`       // every option is preceded by the same option with another value: the last one wins
+	BranchOnly string `json:"branch_only,omitempty"`  // "last" | "mid": only that one of the two branch-format options is passed
 }
 
 func (o Op) String() string {
@@ -228,7 +229,14 @@ func opOptions(op Op, ctx context.Context, target string) []gtree.Option {
 		opts = append(opts, gtree.WithDryRun())
 	}
 	if len(op.Branch) == 4 {
-		opts = append(opts, gtree.WithBranchFormatLastNode(op.Branch[0], op.Branch[1]), gtree.WithBranchFormatIntermedialNode(op.Branch[2], op.Branch[3]))
+		switch op.BranchOnly {
+		case "last":
+			opts = append(opts, gtree.WithBranchFormatLastNode(op.Branch[0], op.Branch[1]))
+		case "mid":
+			opts = append(opts, gtree.WithBranchFormatIntermedialNode(op.Branch[2], op.Branch[3]))
+		default:
+			opts = append(opts, gtree.WithBranchFormatLastNode(op.Branch[0], op.Branch[1]), gtree.WithBranchFormatIntermedialNode(op.Branch[2], op.Branch[3]))
+		}
 	}
 	if op.Exts != nil {
 		opts = append(opts, gtree.WithFileExtensions(op.Exts))
@@ -709,4 +717,20 @@ func snapStringFull(es []Entry) string {
 		fmt.Fprintf(&sb, "%s:%s:%d:%o:%x\n", e.Kind, e.Path, e.Size, e.Mode, e.Sum)
 	}
 	return sb.String()
+}
+
+// effectiveBranch returns the four branch strings an operation ends up with (documented
+// defaults for whatever is not set).
+func effectiveBranch(op Op) []string {
+	def := []string{"└──", "    ", "├──", "│   "}
+	if len(op.Branch) != 4 {
+		return nil
+	}
+	switch op.BranchOnly {
+	case "last":
+		return []string{op.Branch[0], op.Branch[1], def[2], def[3]}
+	case "mid":
+		return []string{def[0], def[1], op.Branch[2], op.Branch[3]}
+	}
+	return op.Branch
 }
